@@ -102,8 +102,13 @@ package tubes
 //@   property C11 C08
 //@   modifies s.senderWindow.duplicatedAckCounter, s.senderWindow.ssThresh, s.senderWindow.cwndSize, s.senderWindow.state
 
-// Every outstanding frame record holds a frame (appended only by sender.framesToSend / sendEmptyPacket with a new frame).
+// Every outstanding frame record holds a frame (appended only by sender.write / sendFin with a new frame).
 //@ objinv sender : forall i int :: 0 <= i && i < len(self.frames) ==> self.frames[i].frame != nil
+// The staging buffer is empty between calls: write frames everything it appends (proved: write's postcondition) and is its only writer.
+//@ objinv sender : len(self.buffer) == 0
+// The reassembly buffer is allocated by newReceiver and never replaced.
+//@ stablefield tubes.receiver.buffer = tubes.newReceiver
+//@ objinv receiver : self.buffer != nil
 
 // recvAck never panics, whatever acknowledgement number the peer sends.
 //@ func (s *sender) recvAck(ackNo uint32) (missing uint32, err error)
@@ -220,7 +225,7 @@ package tubes
 //@ func (r *receiver) processIntoBuffer() (fin bool)
 //@   property C08
 //@   atomic
-//@   requires r.buffer != nil && qinv(r) && delivered(r)
+//@   requires qinv(r) && delivered(r)
 //@   modifies r.windowStart, r.ackNo, *r.buffer, r.buffer.buf[:], bufAll, pqItems, families("F|tubes.pqItem|index|", "F|tubes.receiver|fragments|", "M|*tubes.pqItem|"), opaque(r)
 //@   ensures qinv(r) && delivered(r)
 //@   ensures r.ackNo - old(r.ackNo) == r.windowStart - old(r.windowStart)
@@ -249,7 +254,7 @@ package tubes
 //@   property C08
 //@   atomic
 //@   logical F uint64
-//@   requires r.buffer != nil && qinv(r) && delivered(r)
+//@   requires qinv(r) && delivered(r)
 //@   requires F % 4294967296 == uint64(p.frameNo) && (F >= r.ackNo ? F - r.ackNo : r.ackNo - F) < 2147483648
 //@   requires bytes(p.data) == chunk(ref(r), F) && ref(p.data) != ref(r.buffer.buf)
 //@   modifies r.windowStart, r.ackNo, *r.buffer, r.buffer.buf[:], bufAll, pqItems, families("F|tubes.pqItem|index|", "F|tubes.receiver|fragments|", "M|*tubes.pqItem|"), opaque(r)
@@ -263,7 +268,6 @@ package tubes
 //@   modifies *
 //@ func (r *receiver) read(buf []byte) (n int, err error)
 //@   property C08
-//@   requires r.buffer != nil
 //@   ensures called(bytes.Buffer.Read) ==> callcount(bytes.Buffer.Read) == 1 && n == resultof(bytes.Buffer.Read, n) && same(argof(bytes.Buffer.Read, p), buf)
 //@   ensures called(bytes.Buffer.Read) && err != nil ==> len(argof(bytes.Buffer.Read, b).buf) - argof(bytes.Buffer.Read, b).off == 0
 //@   ensures !called(bytes.Buffer.Read) ==> n == 0 && err != nil
@@ -273,11 +277,12 @@ package tubes
 //@ func (s *sender) framesToSend(rto bool, startIndex int) (n int)
 //@   inline
 //@ func (s *sender) write(b []byte) (n int, err error)
-//@   property C08
+//@   property C08 C16
 //@   atomic
-//@   requires len(s.buffer) == 0
 //@   ensures err == nil ==> n == len(b) && len(s.buffer) == 0 && s.frameNo - old(s.frameNo) == uint32(len(s.frames) - old(len(s.frames)))
 //@   ensures err != nil ==> s.frameNo == old(s.frameNo) && len(s.frames) == old(len(s.frames)) && len(s.buffer) == 0
+// (C16) once the FIN was sent nothing more is accepted
+//@   ensures old(s.finSent) ==> err != nil
 //@   loop 1
 //@     invariant s.frameNo - old(s.frameNo) == uint32(len(s.frames) - old(len(s.frames))) && len(s.frames) >= old(len(s.frames))
 //@ func (s *sender) sendFin() (err error)
@@ -360,3 +365,22 @@ package tubes
 //@   requires ref(t) != nil && (typeis(t, "*hop.computer/hop/tubes.Reliable") || typeis(t, "*hop.computer/hop/tubes.Unreliable"))
 //@   after tubes.Tube.WaitForClose let parityAtClose = m.idParity
 //@   ensures called(time.NewTimer) <==> (typeis(t, "*hop.computer/hop/tubes.Reliable") && tubeIDOf(ref(t)) % 2 == parityAtClose)
+
+// ===========================================================================
+// C16 (fragment): what a locally closed reliable tube does on Read / Write
+// ===========================================================================
+// Read on a tube that has left the created state - including a fully closed one - is always served by the reassembly
+// buffer (which hands out buffered data first and end-of-stream only when it is empty: receiver.read, C08).
+//@ func (r *Reliable) Read(b []byte) (n int, err error)
+//@   property C16
+//@   atomic
+//@   ensures old(r.tubeState) != tubes.created ==> callcount(tubes.receiver.read) == 1 && n == resultof(tubes.receiver.read, n) && err == resultof(tubes.receiver.read, err) && same(argof(tubes.receiver.read, buf), b)
+//@   ensures old(r.tubeState) == tubes.created ==> n == 0 && err != nil && !called(tubes.receiver.read)
+// Write is admitted to the sender only while the tube is open for local writes (initiated, closeWait); after a local
+// Close (finWait1 and every later state) it fails without framing anything.
+//@ func (r *Reliable) Write(b []byte) (n int, err error)
+//@   property C16
+//@   atomic
+//@   ensures called(tubes.sender.write) <==> (old(r.tubeState) == tubes.initiated || old(r.tubeState) == tubes.closeWait)
+//@   ensures !called(tubes.sender.write) ==> n == 0 && err != nil
+//@   ensures called(tubes.sender.write) ==> n == resultof(tubes.sender.write, n) && err == resultof(tubes.sender.write, err)
